@@ -363,3 +363,6 @@ def run(ctx):
     ctx.rule("R6.7", "the read side of a channel: chan_read yields the value last set / the top of the stack / null for an empty stack, chan_flush clears the dirty mark and remembers that value, value_is_equal compares type and payload (what the multiplexers and the trace writers see); mux_init/mux_set_input register the select callback enabled and the input callbacks disabled and refuse the output as an input; the bay calls exactly the enabled callbacks of a phase, in order, with (channel, argument), and a failing callback fails the propagation")
     from rules import infra
     infra.check_value(ctx, 'R6.7'); infra.check_chan_read(ctx, 'R6.7'); infra.check_mux_setup(ctx, 'R6.7'); infra.check_bay(ctx, 'R6.7')
+    ctx.rule("R6.8", "the tracking mode a model declares for a thread channel is the one its shipped Paraver view documents: cfg/thread/<model>/*.cfg select a PRV type and are named '... of the ACTIVE thread' or '... of the RUNNING thread'; the th_track entry of the channel with that type must be TRACK_TH_ACT resp. TRACK_TH_RUN")
+    from rules import round3
+    round3.check_track_mode_vs_cfg(ctx, 'R6.8')
